@@ -1,13 +1,14 @@
 #!/bin/bash
 # runs every check of a tier sequentially; prints id, exit code, wall time, last summary line
 tier=${1:-quick}
-cd /verif
-for i in $(seq -w 1 20); do
-  id=C$i
+cd "$(dirname "$0")/.."
+shift
+ids=${@:-$(seq -w 1 20 | sed 's/^/C/')}
+for id in $ids; do
   s=$(date +%s)
   out=$(python3-vt -m symx.check $id --tier $tier 2>&1)
   rc=$?
   e=$(date +%s)
-  echo "$id rc=$rc $((e-s))s $(echo "$out" | tail -1 | cut -c1-200)"
-  echo "$out" | grep -E "VIOLATION|ENGINE-ERROR|vacuity|NOT reproduce|mismatch|PARTIAL|INCONCLUSIVE" | head -5
+  echo "$id rc=$rc $((e-s))s $(echo "$out" | tail -1 | cut -c1-220)"
+  echo "$out" | grep -E "level |VIOLATION|ENGINE-ERROR|vacuity|NOT reproduce|mismatch|INCONCLUSIVE" | head -12
 done
